@@ -4,14 +4,12 @@
 
    py_exec returns None when the program leaves the agreed subset (or would raise at import time):
      * a name bound to a function or class is rebound by a plain assignment (except the old-style
-       `x = staticmethod(x)` / `x = classmethod(x)` wrapping of a plain function of the same class body)
+       `x = staticmethod(x)` / `x = classmethod(x)` wrapping of a (possibly already wrapped) method of the same class body)
      * an alias `x = y` (bare name on the right), an annotation without value, `x = property(..)`
      * an assignment to __all__ / __docformat__ (module metadata)
      * `self.x = ..` outside a function body, an augmented assignment to a name that is not bound to a data value
      * a binding statement in an `else:`/`except`/`finally:` suite or in the body of an `if` that is false at import
        time (pydoctor walks `.body` suites only: outside the agreed subset, see C03_orelse_not_walked_observation)
-     * (strict) a method assigning `self.a` while `a` is bound to a property in the class body so far
-     * (strict) a base class named ExceptionGroup, BaseExceptionGroup or EncodingWarning
      * decorators other than one of staticmethod/classmethod/property (class bodies only) plus transparent ones
      * an import or a loop variable re-using a name that is bound to a definition; a base class that is not a class
        bound in the namespace executing the class statement and not a builtin class.
@@ -223,24 +221,17 @@ Definition bind_aux (n : name) (e : env) : option env :=
   | Some _ => None
   end.
 
-(* the builtin exception classes added in Python 3.10 / 3.11 (EncodingWarning; ExceptionGroup, BaseExceptionGroup):
-   the strict subset excludes them as base classes (pydoctor's table lacks them, see C03_exception_table_refuted) *)
-Definition py_new_exceptions : list name := [
-    [69;120;99;101;112;116;105;111;110;71;114;111;117;112];
-    [66;97;115;101;69;120;99;101;112;116;105;111;110;71;114;111;117;112];
-    [69;110;99;111;100;105;110;103;87;97;114;110;105;110;103]]%N.
-
-Definition base_exc_py (strict : bool) (e : env) (b : name) : option bool :=
+Definition base_exc_py (e : env) (b : name) : option bool :=
   match plookup b e with
   | Some (VClass exc _ _) => Some exc
   | Some _ => None
-  | None => if strict && mem b py_new_exceptions then None else py_builtin_class b
+  | None => py_builtin_class b
   end.
 
-Fixpoint bases_exc (strict : bool) (e : env) (bs : list name) : option bool :=
+Fixpoint bases_exc (e : env) (bs : list name) : option bool :=
   match bs with
   | [] => Some false
-  | b :: r => match base_exc_py strict e b, bases_exc strict e r with
+  | b :: r => match base_exc_py e b, bases_exc e r with
               | Some x, Some y => Some (x || y)
               | _, _ => None
               end
@@ -258,7 +249,9 @@ Definition assign_value (sc : pscope) (e : env) (ts : list target) (r : rhs) : o
         | PClass, [TName n], [a] =>
             if text_eqb n a then
               match plookup n e with
-              | Some (VFun asy WNone d) => Some (VFun asy (if text_eqb f p_staticmethod then WStatic else WClassM) d)
+              | Some (VFun asy WProp d) => None
+              | Some (VFun asy _ d) =>      (* a plain function or one already inside staticmethod/classmethod: the outer wrapper decides *)
+                  Some (VFun asy (if text_eqb f p_staticmethod then WStatic else WClassM) d)
               | _ => None
               end
             else None
@@ -278,39 +271,15 @@ Definition bind_target (v : pyval) (t : target) (e : env) : option env :=
   | TSelf _ => None                                     (* NameError: self is not defined in a module/class body *)
   end.
 
-(* the attributes a function body assigns through `self` (any depth) *)
-Fixpoint self_targets (x : stmt) : list name :=
-  let tg := fun t => match t with TSelf a => [a] | _ => [] end in
-  match x with
-  | Def _ _ _ body => flat_map self_targets body
-  | Class _ _ body => flat_map self_targets body
-  | Assign ts _ => flat_map tg ts
-  | AnnAssign t _ _ => tg t
-  | AugAssign t _ => tg t
-  | If _ b o => flat_map self_targets b ++ flat_map self_targets o
-  | Try b h o f => flat_map self_targets b ++ flat_map self_targets h ++ flat_map self_targets o ++ flat_map self_targets f
-  | With b => flat_map self_targets b
-  | For _ b o => flat_map self_targets b ++ flat_map self_targets o
-  | While b o => flat_map self_targets b ++ flat_map self_targets o
-  | _ => []
-  end.
-
-Definition is_property_val (v : option pyval) : bool :=
-  match v with Some (VFun _ WProp _) => true | _ => false end.
-
-Fixpoint py_stmt (strict : bool) (x : stmt) (sc : pscope) (e : env) {struct x} : option env :=
+Fixpoint py_stmt (x : stmt) (sc : pscope) (e : env) {struct x} : option env :=
   match x with
   | Def nm decos asy body =>
       match def_wrap sc decos WNone with
-      | Some w =>
-          (* strict: a method assigning `self.a` where the class body has bound `a` to a property so far is outside the
-             subset (pydoctor turns the property into an instance variable, see C03_kinds_property_self_refuted) *)
-          if strict && existsb (fun a => is_property_val (plookup a e)) (flat_map self_targets body) then None
-          else Some (bind nm (VFun asy w (docstring_of body)) e)
+      | Some w => Some (bind nm (VFun asy w (docstring_of body)) e)
       | None => None
       end
   | Class nm bases body =>
-      match bases_exc strict e bases, ofold (fun y e' => py_stmt strict y PClass e') body [] with
+      match bases_exc e bases, ofold (fun y e' => py_stmt y PClass e') body [] with
       | Some exc, Some ns => Some (bind nm (VClass exc (docstring_of body) ns) e)
       | _, _ => None
       end
@@ -335,31 +304,27 @@ Fixpoint py_stmt (strict : bool) (x : stmt) (sc : pscope) (e : env) {struct x} :
   | ExprStr _ => Some e
   | Other => Some e
   | If TMain _ orelse => if nonbinding_suite orelse then Some e else None          (* body not executed on import *)
-  | If TTrue body orelse => if nonbinding_suite orelse then ofold (fun y e' => py_stmt strict y sc e') body e else None
+  | If TTrue body orelse => if nonbinding_suite orelse then ofold (fun y e' => py_stmt y sc e') body e else None
   | If TFalse body orelse => if nonbinding_suite body && nonbinding_suite orelse then Some e else None
   | Try body h o f =>
       if nonbinding_suite h && nonbinding_suite o && nonbinding_suite f
-      then ofold (fun y e' => py_stmt strict y sc e') body e else None
-  | With body => ofold (fun y e' => py_stmt strict y sc e') body e
+      then ofold (fun y e' => py_stmt y sc e') body e else None
+  | With body => ofold (fun y e' => py_stmt y sc e') body e
   | For tgt body orelse =>
       if nonbinding_suite orelse then
         match bind_aux tgt e with
-        | Some e1 => ofold (fun y e' => py_stmt strict y sc e') body e1
+        | Some e1 => ofold (fun y e' => py_stmt y sc e') body e1
         | None => None
         end
       else None
-  | While body orelse => if nonbinding_suite orelse then ofold (fun y e' => py_stmt strict y sc e') body e else None
+  | While body orelse => if nonbinding_suite orelse then ofold (fun y e' => py_stmt y sc e') body e else None
   | Import ns => ofold bind_aux ns e
   end.
 
-Definition py_body (strict : bool) (sc : pscope) (body : list stmt) (e : env) : option env :=
-  ofold (fun y e' => py_stmt strict y sc e') body e.
+Definition py_body (sc : pscope) (body : list stmt) (e : env) : option env :=
+  ofold (fun y e' => py_stmt y sc e') body e.
 
-(* py_exec: the subset the theorems are stated for (strict); py_exec_lax: the same semantics without the
-   property/self restriction -- used by the harness to scope the pydoctor-vs-CPython oracle, so that the oracle
-   still sees (and reports as a known finding) the programs the strict subset excludes *)
-Definition py_exec (prog : list stmt) : option env := py_body true PModule prog [].
-Definition py_exec_lax (prog : list stmt) : option env := py_body false PModule prog [].
+Definition py_exec (prog : list stmt) : option env := py_body PModule prog [].
 
 (* ---- the type of a literal value ---------------------------------------------------------------------- *)
 Definition py_type_name (v : value) : text :=
